@@ -456,6 +456,46 @@ def translate(repo_src: Path) -> str:
         f"({coq_string(fn)}%string, g_{fn})" for fn in drot) + "]."
     if names_of("u3") != ["qubit", "theta", "phi", "lambda_"]:
         raise Unsupported("u3 signature")
+    # dispatcher used by the parse model: how parse_stim_circuit calls gate_func(b, *chunk, *args[, invert=True | classically_controlled=cc])
+    arms = []
+    seen = set()
+    for k, fn, ar, names in rows:
+        if fn in seen:
+            continue
+        seen.add(fn)
+        qn = [n for n in names if n in QUBIT_PARAMS]
+        pn = [n for n in names if n in PROB_PARAMS]
+        other = [n for n in names if n not in QUBIT_PARAMS and n not in PROB_PARAMS]
+        if len(qn) != ar or names[:ar] != qn or names[ar:ar + len(pn)] != pn or any(o not in ("invert", "classically_controlled") for o in other):
+            raise Unsupported(f"GATE_TABLE function {fn}: signature {names} does not fit the dispatch scheme")
+        fnobj = funcs[fn]
+        _, defaults = tr.sig(fnobj)
+        n_required = sum(1 for n in pn if defaults[n] is None)
+        qpat = "[" + "; ".join(f"q{i}" for i in range(ar)) + "]"
+        qargs = " ".join(f"q{i}" for i in range(ar))
+        has_inv = "invert" in other
+        has_cc = "classically_controlled" in other
+        gcall = {"h": "g_h_prim", "i": "g_i_prim", "swap": "g_swap_prim"}.get(fn, "g_" + fn)
+        sub = []
+        for nargs in range(n_required, len(pn) + 1):
+            apat = "[" + "; ".join(f"a{i}" for i in range(nargs)) + "]"
+            # missing optional probability arguments take their python defaults (0)
+            aargs = " ".join([f"a{i}" for i in range(nargs)] + ["(0 # 1)%Q"] * (len(pn) - nargs))
+            call = f"{gcall} {qargs} {aargs}".strip()
+            if has_inv:
+                body = f"match cc with Some _ => None | None => Some ({call} invert) end"
+            elif has_cc:
+                body = f"if invert then None else Some ({call} cc)"
+            else:
+                body = f"if invert then None else match cc with Some _ => None | None => Some ({call}) end"
+            sub.append(f"| {apat} => {body}")
+        arms.append(f"  | {coq_string(fn)}%string => match qs with {qpat} => match args with " + " ".join(sub) + " | _ => None end | _ => None end")
+    dispatcher = ("Definition g_h_prim (q : nat) : list (op nat) := [OH q].\n"
+                  "Definition g_i_prim (q : nat) : list (op nat) := [OI q].\n"
+                  "Definition g_swap_prim (a b : nat) : list (op nat) := [OSwap a b].\n"
+                  "(* gate_func(b, *chunk, *args) / (..., invert=True) / (..., classically_controlled=cc); None = the call raises *)\n"
+                  "Definition apply_gate (fn : string) (qs : list nat) (args : list Q) (invert : bool) (cc : option (bool * bool)) : option (list (op nat)) :=\n"
+                  "  match fn with\n" + "\n".join(arms) + "\n  | _ => None\n  end.")
     header = [
         "(* GENERATED by /verif/translate/instructions.py from /repo/src/tsim/core/instructions.py -- do not edit *)",
         "From Coq Require Import ZArith List Bool QArith String.",
@@ -466,4 +506,4 @@ def translate(repo_src: Path) -> str:
         "Definition ehalf (e : expo) : expo := mkE (c0 e / 2)%Z (s1 e / 2)%Z (s2 e / 2)%Z (s3 e / 2)%Z.",
         "",
     ]
-    return "\n".join(header) + text_defs + "\n\n" + table + "\n" + sigs + "\n" + fp + "\n" + disp1 + "\n" + disp2 + "\n" + disprot + "\n"
+    return "\n".join(header) + text_defs + "\n\n" + table + "\n" + sigs + "\n" + fp + "\n" + disp1 + "\n" + disp2 + "\n" + disprot + "\n" + dispatcher + "\n"
